@@ -6,4 +6,4 @@ import "gitlab.com/aquachain/aquachain/common"
 
 func verifSigned(site int) {}
 
-func verifExpire(addr common.Address, u *unlocked) {}
+func verifExpire(addr common.Address, u *unlocked, site int) {}
